@@ -48,6 +48,9 @@ def run(chk: Check) -> None:
     ix = get_index()
     run_final_iteration(chk, ix)
     run_index_guards(chk, ix)
+    run_type_param_guard(chk, ix)
+    run_planned_internal_errors(chk, ix)
+    run_saved_indexes(chk, ix)
 
     r1 = chk.rule("R20.1", "every loop that re-queues deferred work has a per-iteration counter compared with a constant bound that exits the loop; type-checker deferral is limited by pass_num < last_pass", floor=7)
     n_loops = 0
@@ -335,3 +338,135 @@ def run_index_guards(chk: Check, ix) -> None:
                 r4.violation(key, f.loc(sub), f"`{sub.slice.id}` takes several constant values but the access is not range-checked against {want}: an input whose sequence is shorter raises IndexError, i.e. INTERNAL ERROR (or a dead daemon)")
     if n < 2:
         raise AnalysisError(f"only {n} constant-index-variable subscripts found")
+
+
+def run_type_param_guard(chk: Check, ix) -> None:
+    """R20.5: the test that protects `assert self.add_symbol(...)` in push_type_args covers every node kind the loop adds."""
+    r5 = chk.rule("R20.5", "push_type_args asserts that add_symbol accepted a type parameter unless is_defined_type_param saw the name; is_defined_type_param therefore has to recognise every node class analyze_type_param can produce (they are what an earlier iteration of the same loop put into the scope): a duplicate name whose first declaration is of an unrecognised kind (`def f[*Ts, Ts]`, `[**P, P]`) makes add_symbol refuse and the assertion fail (INTERNAL ERROR; the daemon dies)", floor=4)
+    sa = ix.cls("mypy.semanal.SemanticAnalyzer")
+    pta, guard, prod = sa.methods["push_type_args"], sa.methods["is_defined_type_param"], sa.methods["analyze_type_param"]
+    asserts = [a for a in ast.walk(pta.node) if isinstance(a, ast.Assert) and any(isinstance(c, ast.Call) and call_name(c) == "add_symbol" for c in ast.walk(a.test))]
+    if not asserts:
+        r5.info("push_type_args no longer asserts on add_symbol", pta.loc(), "the rule has no crash point to protect")
+        return
+    from ..cfg import branch_conditions
+    par = pta.module.parents()
+    pos, neg = branch_conditions(par, pta.node, asserts[0], early_exits=True)
+    guarded = any(isinstance(c, ast.Call) and call_name(c) == "is_defined_type_param" for t in neg for c in ast.walk(t)) or any(isinstance(t, ast.UnaryOp) and isinstance(t.op, ast.Not) and any(isinstance(c, ast.Call) and call_name(c) == "is_defined_type_param" for c in ast.walk(t.operand)) for t in pos)
+    if guarded:
+        r5.ok("the assertion on add_symbol is reached only when is_defined_type_param(name) is false", pta.loc(asserts[0]))
+    else:
+        r5.violation("the assertion on add_symbol is reached only when is_defined_type_param(name) is false", pta.loc(asserts[0]), "a repeated type parameter name reaches the assertion")
+    nodes = ix.module("mypy.nodes")
+    recognised: set[str] = set()
+    for c in ast.walk(guard.node):
+        if isinstance(c, ast.Call) and call_name(c) == "isinstance" and len(c.args) == 2:
+            k = c.args[1]
+            for e in (k.elts if isinstance(k, ast.Tuple) else [k]):
+                ci = nodes.classes.get(norm(e))
+                if ci is not None:
+                    recognised |= {ci.name} | {s.name for s in ci.all_subclasses()}
+    if not recognised:
+        raise AnalysisError("is_defined_type_param: no isinstance test on a mypy.nodes class found")
+    ret = prod.node.returns
+    ret_names = {n.id for n in ast.walk(ret) if isinstance(n, ast.Name)} if ret is not None else set()
+    base = next((nodes.classes[n] for n in ret_names if n in nodes.classes), None)
+    if base is None:
+        raise AnalysisError("analyze_type_param: return annotation does not name a mypy.nodes class")
+    family = {base.name} | {s.name for s in base.all_subclasses()}
+    produced = sorted({call_name(c) for c in ast.walk(prod.node) if isinstance(c, ast.Call) and isinstance(c.func, ast.Name) and c.func.id in family})
+    if len(produced) < 3:
+        raise AnalysisError(f"analyze_type_param: only {produced} constructed")
+    for k in produced:
+        key = f"is_defined_type_param recognises {k} (produced by analyze_type_param)"
+        if k in recognised:
+            r5.ok(key, guard.loc())
+        else:
+            r5.violation(key, guard.loc(), f"a type parameter of kind {k} already in scope is not seen by is_defined_type_param (it tests {sorted(recognised)[:4]}): a second parameter with the same name reaches `assert self.add_symbol(...)`, add_symbol refuses the redefinition and the assertion fails")
+    run_returned_type_params(chk, r5, ix)
+
+
+def run_planned_internal_errors(chk: Check, ix) -> None:
+    """R20.6: an 'internal error' message is never the planned outcome of a branch."""
+    r6 = chk.rule("R20.6", "a diagnostic labelled as an internal error is produced only by report_internal_error (for an exception that escaped), never as the planned outcome of a branch that input can reach: where a fix-point bound or an unexpected state is handled by reporting, the report is an ordinary diagnostic", floor=2)
+    REPORTERS = {"report", "fail", "note", "error", "print", "report_simple_error", "add_error_info"}
+    n = 0
+    for q, f in sorted(ix.functions.items()):
+        mn = f.module.name
+        if f.parent is not None or not mn.startswith("mypy.") or ".test" in mn:
+            continue
+        for c in ast.walk(f.node):
+            if not (isinstance(c, ast.Call) and call_name(c) in REPORTERS):
+                continue
+            msgs = [a.value for a in ast.walk(c) if isinstance(a, ast.Constant) and isinstance(a.value, str) and "internal error" in a.value.lower()]
+            if not msgs:
+                continue
+            n += 1
+            key = f"{q}: reports {msgs[0][:60]!r}"
+            if q == "mypy.errors.report_internal_error":
+                r6.ok(key, f.loc(c), "the mechanism for escaped exceptions itself")
+            else:
+                r6.violation(key, f.loc(c), f"{q} reports a message labelled as an internal error as a planned outcome; an input that reaches this call gets an `internal error` instead of a diagnostic about the program")
+    if n < 2:
+        raise AnalysisError(f"only {n} reported internal-error messages found (report_internal_error vanished?)")
+
+
+def run_returned_type_params(chk: Check, r5, ix) -> None:
+    sa = ix.cls("mypy.semanal.SemanticAnalyzer")
+    pta = sa.methods["push_type_args"]
+    from ..cfg import branch_conditions
+    par = pta.module.parents()
+    rets = [r for r in ast.walk(pta.node) if isinstance(r, ast.Return) and isinstance(r.value, ast.Name)]
+    if not rets:
+        raise AnalysisError("push_type_args: no `return <list>` found")
+    lst = rets[-1].value.id
+    apps = [c for c in ast.walk(pta.node) if isinstance(c, ast.Call) and isinstance(c.func, ast.Attribute) and c.func.attr == "append" and norm(c.func.value) == lst]
+    key = "push_type_args returns only the type parameters that were added to the scope"
+    if not apps:
+        raise AnalysisError("push_type_args: the returned list is never appended to")
+    for c in apps:
+        st = c
+        while not isinstance(st, ast.stmt):
+            st = par[st]
+        pos, neg = branch_conditions(par, pta.node, st, early_exits=True)
+        excl = any(isinstance(x, ast.Call) and call_name(x) == "is_defined_type_param" for t in neg for x in ast.walk(t)) or any(isinstance(t, ast.UnaryOp) and isinstance(t.op, ast.Not) and any(isinstance(x, ast.Call) and call_name(x) == "is_defined_type_param" for x in ast.walk(t.operand)) for t in pos)
+        if excl:
+            r5.ok(key, pta.loc(c))
+        else:
+            r5.violation(key, pta.loc(c), f"`{lst}.append(...)` also runs for a name is_defined_type_param rejected: the `type` statement binds the rejected parameter as the alias type variable while the scope holds the first declaration (`type A[*Ts, Ts] = tuple[*Ts]` fails an assertion in the type analyzer)")
+
+
+def run_saved_indexes(chk: Check, ix) -> None:
+    """R20.7: an index saved for later use accounts for the deletions that follow."""
+    r7 = chk.rule("R20.7", "where a loop over enumerate(<list>) saves an index into an attribute and the same function afterwards deletes items of that list by the indexes collected in the loop (`for i in reversed(D): del L[i]`), the saved index is computed from the collection of indexes to delete too; otherwise it points at the wrong item, or past the end (IndexError => INTERNAL ERROR), once an earlier item has been deleted", floor=1)
+    for q, f in sorted(ix.functions.items()):
+        mn = f.module.name
+        if f.parent is not None or not mn.startswith("mypy.") or ".test" in mn:
+            continue
+        dels = []
+        for lp in ast.walk(f.node):
+            if isinstance(lp, ast.For) and isinstance(lp.target, ast.Name):
+                it = lp.iter
+                src = it.args[0] if isinstance(it, ast.Call) and call_name(it) in ("reversed", "sorted") and it.args else it
+                if not isinstance(src, ast.Name):
+                    continue
+                for d in lp.body:
+                    if isinstance(d, ast.Delete) and len(d.targets) == 1 and isinstance(d.targets[0], ast.Subscript) and norm(d.targets[0].slice) == lp.target.id and isinstance(d.targets[0].value, ast.Name):
+                        dels.append((lp, src.id, d.targets[0].value.id))
+        for dl, dname, lname in dels:
+            for lp in ast.walk(f.node):
+                if not (isinstance(lp, ast.For) and lp.lineno < dl.lineno and isinstance(lp.iter, ast.Call) and call_name(lp.iter) == "enumerate" and lp.iter.args):
+                    continue
+                base = lp.iter.args[0]
+                while isinstance(base, ast.Subscript):
+                    base = base.value
+                if not (isinstance(base, ast.Name) and base.id == lname and isinstance(lp.target, ast.Tuple) and isinstance(lp.target.elts[0], ast.Name)):
+                    continue
+                iv = lp.target.elts[0].id
+                for a in ast.walk(lp):
+                    if isinstance(a, ast.Assign) and len(a.targets) == 1 and isinstance(a.targets[0], ast.Attribute) and any(isinstance(n, ast.Name) and n.id == iv for n in ast.walk(a.value)):
+                        key = f"{q}: `{norm(a.targets[0])}` saved from the loop index accounts for the items of `{lname}` deleted afterwards"
+                        if any(isinstance(n, ast.Name) and n.id == dname for n in ast.walk(a.value)):
+                            r7.ok(key, f.loc(a), norm(a.value))
+                        else:
+                            r7.violation(key, f.loc(a), f"`{norm(a)}` is an index into `{lname}` before `del {lname}[i]` runs for the indexes in `{dname}`: after an earlier item is deleted the saved index is off by the number of deleted items")
